@@ -105,3 +105,307 @@ def run_history(drv, setup, dialect, hist_packets, strict=True, subs=None, every
         for s in model.get('steps', []):
             s['log'] = strip_log_paths(s['log'])
     return model, impl, stream
+
+
+# =====================================================================================
+# generic worker: a batch of histories over one definition set
+# =====================================================================================
+
+def shrink_packets(packets, still_bad, budget=60):
+    """greedy delta-debugging on the packet list"""
+    cur = list(packets)
+    n = 2
+    tries = 0
+    while len(cur) >= 2 and tries < budget:
+        chunk = max(1, len(cur) // n)
+        removed = False
+        for i in range(0, len(cur), chunk):
+            cand = cur[:i] + cur[i + chunk:]
+            tries += 1
+            if cand and still_bad(cand):
+                cur = cand
+                n = max(n - 1, 2)
+                removed = True
+                break
+            if tries >= budget:
+                break
+        if not removed:
+            if chunk == 1:
+                break
+            n = min(n * 2, len(cur))
+    return cur
+
+
+def packets_json(packets):
+    return [[t, p.hex(), {k: v for k, v in m.items() if k in ('kind', 'time', 'id', 'op', 'path', 'fault')}] for t, p, m in packets]
+
+
+def _hist_worker(cfg):
+    """cfg: seed_key, dialects, n_hist, n_events, weights, every, strict, subs_fn (name), fields (oracle), big"""
+    drv = common.Driver()
+    st = Setup(cfg['seed_key'], want_nested=cfg.get('want_nested', True))
+    out = {'cases': [], 'problems': [], 'stats': {}}
+    try:
+        for hi in range(cfg['n_hist']):
+            dialect = cfg['dialects'][hi % len(cfg['dialects'])]
+            rng = random.Random('%s-%d-%s' % (cfg['seed_key'], hi, dialect))
+            subs = None
+            if cfg.get('subs'):
+                subs = gen_subs(rng, st.views, cfg['subs'])
+            h = history.generate(rng, st.views, dialect, cfg['n_events'], weights=cfg.get('weights'), big=cfg.get('big', False),
+                                 subscribed=set(s[0] for s in subs['methods']) if subs else None)
+            strict = cfg.get('strict', False)
+            model, impl, stream = run_history(drv, st, dialect, h.packets, strict=strict, subs=subs, every=cfg.get('every', False))
+            exp = iplay.canon_generic(history.expected_world(h))
+            kinds = {}
+            for _, _, m in h.packets:
+                kinds[m['kind']] = kinds.get(m['kind'], 0) + 1
+            case = {'dialect': dialect, 'kinds': kinds, 'packets': len(h.packets), 'entities': len(h.world), 'bytes': len(stream),
+                    'key': '%s-%d' % (cfg['seed_key'], hi)}
+            if subs:
+                case['subs'] = sum(len(v) for v in subs.values())
+            out['cases'].append(case)
+            # ---- oracle: the implementation alone against the plain interpreter
+            fields = cfg.get('fields', ['entities', 'playerId', 'map'])
+            d_or = oracle_diff(impl['world'], exp, fields, cfg.get('entity_fields'))
+            exp_log = None
+            if subs is not None:
+                exp_log = expected_log(h, st.views, subs)
+                if impl['log'] != exp_log and d_or is None:
+                    d_or = 'invocation log: ' + first_log_diff(impl['log'], exp_log)
+            if d_or is None and not any(m.get('expect_error') or m.get('garbage') for _, _, m in h.packets):
+                if impl.get('end') != 'finished' and not cfg.get('expect_failures'):
+                    d_or = 'well-formed history does not play to the end: %s' % json.dumps({k: impl.get(k) for k in ('end', 'err', 'index')})
+            # ---- correspondence
+            d_co = None
+            if model is not None:
+                d_co = compare_worlds(model['world'], impl['world'])
+                if d_co is None and norm_end(model) != norm_end(impl):
+                    d_co = 'ending %s vs %s' % (norm_end(model), norm_end(impl))
+                if d_co is None and model.get('log', impl['log']) != impl['log'] and not cfg.get('every'):
+                    d_co = 'invocation log: ' + first_log_diff(model['log'], impl['log'])
+                if d_co is None and cfg.get('every'):
+                    for k, (ms, is_) in enumerate(zip(model['steps'], impl['steps'])):
+                        dd = compare_worlds(ms['world'], is_['world'])
+                        if dd is None and (ms['err'] is None) != (is_['err'] is None):
+                            dd = 'error %r vs %r' % (ms['err'], is_['err'])
+                        if dd is None and ms['log'] != is_['log']:
+                            dd = 'log ' + first_log_diff(ms['log'], is_['log'])
+                        if dd:
+                            d_co = 'after packet %d (%s): %s' % (k, h.packets[k][2]['kind'], dd)
+                            break
+                    if d_co is None and len(model['steps']) != len(impl['steps']):
+                        d_co = 'number of processed packets %d vs %d' % (len(model['steps']), len(impl['steps']))
+            if d_or or d_co:
+                packets = h.packets
+                if d_co and model is not None:
+                    def still_bad(ps):
+                        m2, i2, _ = run_history(drv, st, dialect, ps, strict=strict, subs=subs, every=False)
+                        return compare_worlds(m2['world'], i2['world']) is not None or norm_end(m2) != norm_end(i2) or m2['log'] != i2['log']
+                    try:
+                        if still_bad(packets):
+                            packets = shrink_packets(packets, still_bad)
+                    except Exception:
+                        pass
+                out['problems'].append({'oracle': d_or, 'corr': d_co, 'dialect': dialect, 'defset': st.ds, 'packets': packets_json(packets),
+                                        'strict': strict, 'subs': subs, 'key': case['key']})
+            if hi == 0 and cfg.get('want_sample'):
+                out['sample'] = {'dialect': dialect, 'kinds': kinds, 'entities': [[e['id'], e['type']] for e in impl['world']['entities']][:6],
+                                 'first_packets': packets_json(h.packets[:3])}
+    finally:
+        st.cleanup()
+    return out
+
+
+def oracle_diff(world, exp, fields, entity_fields=None):
+    a = {k: world.get(k) for k in fields}
+    b = {k: exp.get(k) for k in fields}
+    if entity_fields and 'entities' in fields:
+        a['entities'] = [{k: e[k] for k in ['id', 'type'] + entity_fields} for e in world['entities']]
+        b['entities'] = [{k: e[k] for k in ['id', 'type'] + entity_fields} for e in exp['entities']]
+        for x in a['entities'] + b['entities']:
+            for k in ('client', 'cell', 'base', 'volatile'):
+                x.setdefault(k, [])
+    if a == b:
+        return None
+    wa = dict(world, **a)
+    wb = dict(exp, **b)
+    for w in (wa, wb):
+        w.setdefault('playerId', None)
+        w.setdefault('map', None)
+    return compare_worlds(wa, wb) or 'worlds differ'
+
+
+def first_log_diff(a, b):
+    for i, (x, y) in enumerate(zip(a, b)):
+        if x != y:
+            return 'entry %d: %s vs %s' % (i, json.dumps(x)[:300], json.dumps(y)[:300])
+    return 'length %d vs %d (next: %s)' % (len(a), len(b), json.dumps((a + b)[min(len(a), len(b))])[:300] if len(a) != len(b) else '')
+
+
+# ---- subscriptions ------------------------------------------------------------------
+
+def gen_subs(rng, views, mode):
+    """random subsets of keys with 1..3 recording subscribers each (registration order is the
+    list order)"""
+    spec = {'methods': [], 'props': [], 'nested': []}
+    tag = 0
+    keys_m, keys_p, keys_n = [], [], []
+    seen = set()
+    for v in views:
+        for m in v['methods']:
+            k = v['name'] + '_' + m['name']
+            if k not in seen:
+                seen.add(k)
+                keys_m.append(k)
+        for p in v['clientProps']:
+            k = v['name'] + '_' + p[0]
+            if k not in seen:
+                seen.add(k)
+                keys_p.append(k)
+                if history.peel(p[2])['k'] in ('array', 'dict'):
+                    keys_n.append(k)
+    frac = rng.choice([0.3, 0.6, 1.0])
+    regs = []
+    for k in keys_m:
+        if rng.random() < frac:
+            regs += [('methods', k)] * rng.choice([1, 1, 2, 3])
+    for k in keys_p:
+        if rng.random() < frac:
+            regs += [('props', k)] * rng.choice([1, 1, 2, 3])
+    for k in keys_n:
+        if rng.random() < frac:
+            regs += [('nested', k)] * rng.choice([1, 2])
+    rng.shuffle(regs)
+    for kind, k in regs:
+        spec[kind].append([k, tag, False])
+        tag += 1
+    return spec
+
+
+def expected_log(h, views, subs):
+    """what the subscribers must see, from the generated events alone (exactly once per
+    matching event, in stream order, registration order within an event)"""
+    def subs_of(kind, key):
+        return [s for s in subs[kind] if s[0] == key]
+    log = []
+    by_name = {}
+    for v in views:
+        by_name.setdefault(v['name'], v)
+    for ptype, payload, m in h.packets:
+        k = m['kind']
+        if k == 'method' and not m.get('garbage'):
+            key = m['entity_type'] + '_' + m['method']
+            pos = [a for a, n in zip(m['args'], m['names']) if n is None]
+            kw = {}
+            for a, n in zip(m['args'], m['names']):
+                if n is not None:
+                    kw[n] = a
+            for s in subs_of('methods', key):
+                log.append(['M', key, s[1], m['id'], pos, sorted([[n, a] for n, a in kw.items()])])
+        elif k == 'prop':
+            tname = views[h_type(h, m['id'])]['name'] if h_type(h, m['id']) is not None else None
+            key = '%s_%s' % (m.get('etype'), m['prop'])
+            for s in subs_of('props', key):
+                log.append(['P', key, s[1], m['id'], m['value']])
+        elif k == 'create':
+            for name, val in m.get('prop_values', []):
+                key = '%s_%s' % (m.get('etype'), name)
+                for s in subs_of('props', key):
+                    log.append(['P', key, s[1], m['id'], val])
+        elif k == 'nested' and m.get('notify') is not None:
+            full = '%s_%s' % (m.get('etype'), '.'.join(m['path']))
+            # table order: first registration of each key; substring match
+            order = []
+            for s in subs['nested']:
+                if s[0] not in order:
+                    order.append(s[0])
+            for key in order:
+                if key in full:
+                    for s in subs_of('nested', key):
+                        log.append(['N', key, s[1], m['id'], m['notify']])
+    return iplay.canon_generic(log)
+
+
+def h_type(h, eid):
+    e = h.world.get(eid)
+    return e['type'] if e else None
+
+
+# =====================================================================================
+# glue for the property modules
+# =====================================================================================
+
+def run_batches(chk, cfgs, label, what_violation, nontrivial=lambda case: True):
+    """runs the workers, does the bookkeeping, reports oracle failures as violations and
+    model/implementation disagreements as broken correspondences"""
+    results = common.pmap(_hist_worker, cfgs)
+    for r in results:
+        for case in r['cases']:
+            chk.count((label, case['key']), nontrivial(case))
+            chk.dist('%s:histories' % label)
+            chk.dist('%s:dialect:%s' % (label, case['dialect']))
+            chk.dist('%s:packets' % label, case['packets'])
+            for k, n in case['kinds'].items():
+                chk.dist('%s:kind:%s' % (label, k), n)
+        if r.get('sample') and len(chk.cov['samples']) < 3:
+            chk.cov['samples'].append(r['sample'])
+        bad_keys = set()
+        for p in r['problems']:
+            bad_keys.add(p['key'])
+            rep = {'kind': 'history', 'dialect': p['dialect'], 'strict': p['strict'], 'subs': p['subs'], 'defset': p['defset'],
+                   'packets': p['packets'], 'oracle': p['oracle'], 'correspondence': p['corr']}
+            if p['oracle']:
+                chk.report('%s: %s' % (what_violation, p['oracle']), rep)
+            else:
+                chk.broken.append('correspondence play (%s, history %s): %s' % (p['dialect'], p['key'], p['corr']))
+                save_corpus_candidate(chk, rep)
+        chk.cov['traces_validated_against_impl'] += len([c for c in r['cases'] if c['key'] not in bad_keys])
+
+
+def save_corpus_candidate(chk, rep):
+    path = os.path.join(common.WORK, 'replays', '%s-corr-%s-%d.json' % (chk.pid, chk.seed, len(chk.broken)))
+    with open(path, 'w') as f:
+        json.dump({'property': chk.pid, 'replay': rep}, f, default=str)
+
+
+def restore_defset(ds):
+    """JSON turned the generator's tuples into lists"""
+    def fix(sec):
+        for p in sec['props']:
+            p['type'] = tuple(p['type'])
+        for k in ('client', 'cell', 'base'):
+            for m in sec[k]:
+                m['args'] = [(a, tuple(t)) for a, t in m['args']]
+    ds['aliases'] = [(n, tuple(x)) for n, x in ds['aliases']]
+    if ds['alias_ext'] is not None:
+        ds['alias_ext'] = [(n, tuple(x)) for n, x in ds['alias_ext']]
+    for s in ds['interfaces'] + ds['entities']:
+        fix(s)
+    return ds
+
+
+def replay_history(chk, drv, rep):
+    r = rep['replay']
+    ds = restore_defset(r['defset'])
+    base = os.path.join(common.WORK, 'defs', 'replay-%d' % os.getpid())
+    defsets.write_defset(ds, base)
+    try:
+        loaded = idefs.load_views(base)
+        st = Setup.__new__(Setup)
+        st.base, st.ds, st.definitions, st.views = base, ds, loaded['defs'], loaded['ok']
+        st.trees = xmltree.load_dir(base)
+        st.load_req = xmltree.load_request('H', st.trees)
+        packets = [(t, bytes.fromhex(p), m) for t, p, m in r['packets']]
+        model, impl, stream = run_history(drv, st, r['dialect'], packets, strict=r.get('strict', False), subs=r.get('subs'), every=False)
+        print('recorded: oracle=%s correspondence=%s' % (r.get('oracle'), r.get('correspondence')))
+        print('stream (%d bytes, %d packets), dialect %s' % (len(stream), len(packets), r['dialect']))
+        print('implementation end:', {k: impl.get(k) for k in ('end', 'err')})
+        if model is not None:
+            print('model end         :', {k: model.get(k) for k in ('end', 'err', 'index')})
+            print('model vs implementation world:', compare_worlds(model['world'], impl['world']))
+            print('model vs implementation log  :', 'same' if model['log'] == impl['log'] else first_log_diff(model['log'], impl['log']))
+        print('implementation world:', json.dumps(impl['world'])[:2000])
+    finally:
+        shutil.rmtree(base, ignore_errors=True)
+    return 0
